@@ -108,6 +108,7 @@ class Watch:
         self.ticks = []  # every scheduled call: {t, role, dirty}
         self.attempts = []  # ticks with something to save: n, t, fired, completed, exc, overlap
         self.inject = None  # bytes to inject when the next attempt starts
+        self.inject_more = []  # further batches, one per (re)open of the temp file within an attempt
         self.current = None
         world.sim.save_hook = self.hook
 
@@ -123,7 +124,8 @@ class Watch:
             if persistence.need_save:
                 rec = {"n": len(self.attempts), "t": sim.now, "fired": False, "completed": False, "exc": None, "pending": None,
                        "logic_at_start": sim.stats.get("logic_calls", 0), "main_before": self.fs.get(self.path),
-                       "bak_before": self.fs.get(self.path + ".bak")}
+                       "bak_before": self.fs.get(self.path + ".bak"),
+                       "nodes_at_start": sorted(self.world.gateway.sensors, key=repr) if self.world.gateway is not None else []}
                 self.attempts.append(rec)
                 self.current = rec
                 spec = self.faults.get(str(rec["n"]))
@@ -162,6 +164,10 @@ class Watch:
         cur = self.world.sim.current
         if cur is None or cur.role not in ("timer", "executor"):
             return  # an operation of another save (stop()'s own): the fault script is for scheduled attempts
+        if opname == "open" and self.inject_more:
+            # more traffic arrives whenever this attempt (re)opens its temp file: a second pass over the data, if the
+            # library makes one, is disturbed like the first
+            self.world.device.inject(self.inject_more.pop(0))
         if rec.get("pending") is not None and self.fs.armed:
             # the faulting operation is chosen lazily among the operations of this attempt:
             # operation kind by the first draw, (for writes) an early or a late one by the second
@@ -205,13 +211,21 @@ def run(case):
                 for line in period["mid"]:
                     world.feed(line + "\n")
                 if period["at_save"]:
-                    watch.inject = "".join(line + "\n" for line in period["at_save"]).encode()
+                    lines = period["at_save"]
+                    if len(lines) >= 2:
+                        watch.inject = (lines[0] + "\n").encode()
+                        watch.inject_more = [(ln + "\n").encode() for ln in lines[1:]]
+                    else:
+                        watch.inject = "".join(line + "\n" for line in lines).encode()
                 n_before = len(watch.attempts)
                 # run past the next scheduled save
                 world.advance(max(0.0, t_next - sim.now) + 0.6)
                 if watch.inject is not None:
                     # no attempt started (nothing to save, or the chain is dead): deliver the traffic anyway
                     data, watch.inject = watch.inject, None
+                    world.feed(data)
+                if watch.inject_more:
+                    data, watch.inject_more = b"".join(watch.inject_more), []
                     world.feed(data)
                 t_next = (watch.attempts[-1]["t"] if len(watch.attempts) > n_before else t_next) + 10.0
                 _check_after_period(world, gateway, watch, fs, cfg, violations, probes, n_before)
@@ -291,6 +305,17 @@ def _check_after_period(world, gateway, watch, fs, cfg, violations, probes, n_be
         probes["attempts"] = probes.get("attempts", 0) + 1
         if watch.attempts[: rec["n"]] and any(not a["completed"] for a in watch.attempts[: rec["n"]]):
             probes["attempts_after_failure"] = 1
+        if rec["completed"] and rec is watch.attempts[-1] and not violations:
+            # an attempt that reported success left a file behind: it loads, and no node that existed when the attempt
+            # began is missing from it (whatever arrived DURING the attempt may or may not be in it)
+            err, state, _ = _load_clone(world, fs, cfg)
+            world.gateway = gateway
+            lost = [n for n in rec.get("nodes_at_start", []) if n not in state]
+            if err is not None or lost:
+                violations.append(_vio("completed-save-left-bad-file", {"attempt": rec["n"], "exc": repr(err), "nodes_lost": lost[:6], "overlap": bool(rec.get("overlap"))},
+                                       overlap=bool(rec.get("overlap"))))
+            else:
+                probes["file_after_completed_attempt_checked"] = probes.get("file_after_completed_attempt_checked", 0) + 1
         if not rec["completed"]:
             probes["attempts_failed"] = probes.get("attempts_failed", 0) + 1
             err, state, _ = _load_clone(world, fs, cfg)
